@@ -173,6 +173,11 @@ class C04:
         for o in ("\\0", "\\7", "\\12", "\\123", "\\400", "\\777", "\\8", "\\x4", "\\x41", "\\xg1", "\\'", '\\"', "\\a\\b\\f\\n\\r\\t\\v"):
             for tail in ("", "z", "7"):
                 ins.append(("escape", b"S'" + (o + tail).encode() + b"'\n."))
+        # FLOAT text whose exponent has many leading zeros (strconv's cap on the exponent counts significant digits only)
+        for t in (b"1e0000000005", b"1e+0000000000000000005", b"1e-0000000000400", b"1E00000000000000000000000000400", b"1000000e0000000005",
+                  b"1e000000000", b"0e99999999999999999999", b"1e00000000000000000000000000000000000000308", b"1e-000000000000000000000000324"):
+            ins.append(("escape", b"F" + t + b"\n."))
+            ins.append(("escape", b"(F" + t + b"\nF-" + t + b"\nt."))
         for b, _ in P.boundary_programs(rng, sample=ctx.scale(40, 400)):
             ins.append(("boundary", b))
         for b in P.well_known_call_programs():
@@ -542,6 +547,19 @@ class C10:
             if len(parts) != nlead + 1 or not all(x.startswith("OK ") for x in parts[:-1]) or not parts[-1].startswith(want):
                 ctx.violate("a cut in a later pickle of a stream does not give io.ErrUnexpectedEOF (io.EOF between pickles)", line[:3000],
                             "OK … | " * nlead + want, g[:300])
+        # an Encoder whose destination failed once: what it writes next is ONE pickle (a prefix of it must not decode)
+        vals = [("S", b"first"), ("l", [("I", 1), ("S", b"x")]), ("t", [("I", 1), ("I", 2), ("I", 3), ("I", 4)]), ("I", 7), ("B", b"ab"), ("m", [(("I", 1), ("N",))])]
+        wc = [(p, su, k, a, b) for p in range(6) for su in (0, 1) for k in (1, 2, 3, 5) for a in vals[:3] for b in (vals[0], vals[3], vals[1])]
+        wdec, wmeta = [], []
+        for (p, su, k, a, b), g in zip(wc, second_encode_after_write_failure(ctx, wc, "encoder-reuse-after-write-failure")):
+            if g.startswith("OK "):
+                data = bytes.fromhex("".join(c for c in g[3:].split(",") if c != "-"))
+                wdec.append(f"dec 0{su} - {hexs(data)}")
+                wmeta.append((p, su, k, len(data)))
+        for (p, su, k, n), r in zip(wmeta, C.run_sharded(C.run_go, wdec)):
+            if r.startswith("OK ") and not r.endswith(f" {n}"):
+                ctx.violate("a proper prefix of what an Encoder wrote in one Encode call decodes as a pickle (io.ErrUnexpectedEOF expected)",
+                            f"enc2w {p} {su} {k} ...", "the whole output is one pickle", r[:300])
         for i in range(0, len(lines), max(1, len(lines) // 8)):
             ctx.sample(lines[i][:300] + " -> " + go[i][:200])
 
@@ -790,6 +808,19 @@ class C11:
             for f in fulls:
                 streams.append([f, e])
                 streams.append([f, e, f, e])
+        # the bytes / bytearray builtins and _codecs.encode in every spelling - recognised or left symbolic depending on the pickle's OWN
+        # protocol and arguments - after pickles that failed under another protocol, or that used the same callable the other way
+        failing = [b"\x80\x03.", b"\x80\x04(.", b"\x80\x05N(.", b"\x80\x03K\x01K\x02\x86}(K\x01K\x02\x86Nu0.", b"\x80\x04\x95\x00\x00\x00\x00\x00\x00\x00\x00t.",
+                   b"\x80\x05a.", b"\x80\x02.", b"\x80\x03h\x07."]
+        calls = [b"c__builtin__\nbytearray\n(c_codecs\nencode\n(X\x01\x00\x00\x00aX\x06\x00\x00\x00latin1tRtR.", b"c__builtin__\nbytes\n)R.",
+                 b"c__builtin__\nbytearray\n)R.", b"\x80\x02c__builtin__\nbytes\n)R.", b"\x80\x03cbuiltins\nbytearray\nC\x01a\x85R.", b"\x80\x03cbuiltins\nbytes\n)R.",
+                 b"\x80\x02cbuiltins\nbytearray\nU\x01a\x85R.", b"\x80\x04c__builtin__\nbytearray\n)R.", b"c_codecs\nencode\n(X\x03\x00\x00\x00abcX\x05\x00\x00\x00utf-8tR.",
+                 b"c_codecs\nencode\n(X\x03\x00\x00\x00abcX\x06\x00\x00\x00latin1tR.", b"\x80\x03c_codecs\nencode\nX\x02\x00\x00\x00\xc3\xa9X\x06\x00\x00\x00latin1\x86R.",
+                 b"cbuiltins\nbytearray\n)R.", b"\x80\x02cbuiltins\nbytes\n)R.", P.py2_bytearray_pickle(b"ab", 1), P.py2_bytearray_pickle(b"ab", 2, True)]
+        for f in failing:
+            for c in calls:
+                streams += [[f, c], [f, f, c, c]]
+        streams += [[a, b] for a in calls for b in calls if a != b]
         # an EMPTY container is returned, then a later pickle builds a container of the same kind in place (EMPTY_DICT + SETITEM(S),
         # EMPTY_LIST + APPEND(S)): the object already handed out stays empty
         empt = [b"}.", b"].", b").", b"\x80\x02}q\x00.", b"]q\x00.", b"(d.", b"(l.", b"(}]t."]
@@ -1019,6 +1050,31 @@ class C14:
             ctx.traces += 1
             if g != want_impl and "TOOBIG" not in g:
                 ctx.violate("decoding depends on how the Reader delivers the bytes", line[:6000], want_impl, g)
+        # PersistentLoad hooks that fail (at the first, second, third call): where the stream stands after the error - what the NEXT
+        # Decode calls see - must not depend on whether the id's line had arrived in one piece
+        hprogs = [b"Pabc\n.I5\n.", b"(Pabc\nPdef\nt.K\x07.", b"Pabc\n.Pdef\n.Pghi\n.", b"]Pabc\na.N.", b"Vx\nQ.I1\n.", b"Pa\n.Pbb\n.Pccc\n.K\x01.",
+                  b"(I1\nPid-1\nI2\nt.S'after'\n.", b"P" + b"x" * 5000 + b"\n.K\x02."]
+        hflat, hsched, hmeta = [], [], []
+        for data in hprogs:
+            for hook in ("F0", "F1", "F2", "K", "R"):
+                cfg = rng.choice(CFGS)
+                hflat.append(f"decsp {cfg} {hook} {hexs(data)}")
+                n = len(data)
+                for sc in ["1*", "e1*", "4096*", "e7*"] + ([f"{k},{n}" for k in range(1, n)] if n <= 200 else [f"{k},{n}" for k in (1, 2, 4096, 4097, 5001, 5002)]):
+                    hsched.append(f"decrh {cfg} {hook} {sc} {hexs(data)}")
+                    hmeta.append(len(hflat) - 1)
+        hgo = C.run_sharded(C.run_go, hflat)
+        hlean = C.run_sharded(C.run_lean, hflat)
+        hs = C.run_sharded(C.run_go, hsched)
+        for line, g, l in zip(hflat, hgo, hlean):
+            ctx.evaluations += 1
+            ctx.tie(line, upto_error(g), upto_error(l))
+        for line, fi, g in zip(hsched, hmeta, hs):
+            ctx.evaluations += 1
+            ctx.traces += 1
+            ctx.count("schedule:with-failing-hook")
+            if g != strip(hgo[fi]):
+                ctx.violate("decoding (with a PersistentLoad hook that fails) depends on how the Reader delivers the bytes", line[:3000], strip(hgo[fi]), g)
         for i in range(0, len(sched_lines), max(1, len(sched_lines) // 8)):
             ctx.sample(sched_lines[i][:200] + " -> " + go[i][:200])
 
@@ -1095,6 +1151,14 @@ class C17:
                             for cfg in ("00", "11", "10"):
                                 lines.append(f"dec {cfg} - {hexs(prog)}")
                                 meta.append((op, cfg, depth, is_tuple_atom, kind))
+                            if npre == 0 and depth <= 1:
+                                # the same program behind a FRAME, with and without a PROTO of an older protocol in front (what a key is
+                                # must not depend on a framing hint)
+                                fr = b"\x95" + (len(prog)).to_bytes(8, "little")
+                                for head in (fr, b"\x80\x02" + fr, b"\x80\x01" + fr):
+                                    cfg = rng.choice(("00", "11", "10"))
+                                    lines.append(f"dec {cfg} - {hexs(head + prog)}")
+                                    meta.append((op, cfg, depth, is_tuple_atom, kind))
         # the unhashable object far from the start of a wide tuple / of Call arguments, and very deep inside
         # Tuple / Ref / Call wrappers: hashability must be decided by the whole key
         def dict_progs(key):
@@ -1264,6 +1328,28 @@ def second_encode_tie(ctx, cases, what):
                         l[:600], g[:600])
 
 
+def second_encode_after_write_failure(ctx, cases, what):
+    """ONE Encoder whose destination fails at the k-th Write of the first Encode call and works again afterwards: the second call
+    writes exactly the pickle of its own argument - nothing of the failed pickle is left over in the Encoder.
+    cases: (proto, su, k, a, b)."""
+    lines = [f"enc2w {p} {int(su)} {k} {V.render(a, sort=False)} ;; {V.render(b, sort=False)}" for p, su, k, a, b in cases]
+    mlines = [f"enc {p} {int(su)} - {V.render(b, sort=False)}" for p, su, k, a, b in cases]
+    go = C.run_sharded(C.run_go, lines)
+    lean = C.run_sharded(C.run_lean, mlines)
+    outs = []
+    for line, (p, su, k, a, b), g, l in zip(lines, cases, go, lean):
+        ctx.evaluations += 1
+        ctx.count(what + ":" + g.split(" ")[0])
+        outs.append(g)
+        if "PANIC" in g or g.startswith("CRASH"):
+            ctx.violate("Encode panicked on an Encoder whose previous Encode met a failing Write", line[:3000], "bytes or an error", g[:300])
+            continue
+        if "".join(g.split(",")) != "".join(l.split(",")) and not (g.startswith("ERR") and l.startswith("ERR")):
+            ctx.violate("after an Encode that met a failing Write, the next Encode on the same Encoder does not write the pickle of its own argument",
+                        line[:3000], l[:600], g[:600])
+    return outs
+
+
 class C18:
     prop = "C18"
     lean_module = "Ogorek.Props.C03Dec"
@@ -1318,6 +1404,7 @@ class C18:
         # protocol-0 ids exactly as written in the stream: everything up to the newline — carriage returns, ids
         # longer than a bufio buffer, ids followed by more ids
         ids = [b"a\r", b"\r", b"a\r\r", b"a\rb", b"", b" ", b"x" * 4094, b"x" * 4095, b"x" * 4096, b"x" * 4097, b"y" * 10000,
+               b"w" * 65535, b"w" * 65536, b"v" * 65537, b"u" * 200000,
                b"z" * 4095 + b"\r", b"\xc4\x80\r"]
         for pid in ids:
             for prog in (b"P" + pid + b"\n.", b"(P" + pid + b"\nPsecond\nI1\nt.", b"(lp0\nP" + pid + b"\naP" + pid + b"\na."):
@@ -1374,6 +1461,7 @@ class C18:
         go, lean = run_both(lines)
         float_text_instances(ctx, [(int(ln.split(" ")[1]), ln) for ln in lines if ln.startswith("enc ")])
         self.run_every_pointer(ctx)
+        self.run_same_named_types(ctx)
         self.run_holders(ctx)
         self.run_nested_ids(ctx)
         rt_lines, rt_meta = [], []
@@ -1461,6 +1549,29 @@ class C18:
             if "".join(g.split(",")) != "".join(l.split(",")):
                 ctx.violate("PersistentRef maps *big.Int objects, yet they were not written as the references it returned (the hook must be "
                             "consulted for every pointer-to-struct)", gl[:3000], l[:600], g[:600])
+
+    def run_same_named_types(self, ctx):
+        """Two different struct types that print alike (`main.Node` twice), one with a tagged pointer field the hook maps: what is
+        written for a value of the second type - references included - does not depend on whether a value of the first type went
+        through the package before (each order runs in a process of its own)."""
+        for p in range(6):
+            alone = C.run_go([f"sametype 2 {p}"])[0]
+            after = C.run_go([f"sametype 12 {p}"])[0]
+            before = C.run_go([f"sametype 21 {p}"])[0]
+            ctx.evaluations += 3
+            ctx.count("same-named-types:" + ("OK" if "2=" in alone and "ERR" not in alone and "PANIC" not in alone else alone[:20]))
+            want2 = alone.split("2=")[-1]
+
+            def norm(x):      # tagged fields are written in map order: the chunks are compared as a multiset
+                return sorted(x.split(","))
+            for what, ans in (("after a value of the other type", after.split("2=")[-1]), ("before a value of the other type", before.split("2=")[-1].split(" ")[0])):
+                if norm(ans) != norm(want2):
+                    ctx.violate("Encode of a struct value (tagged pointer field mapped by PersistentRef) depends on what was encoded " + what +
+                                " in the same process", f"sametype 12 / 21 / 2 {p}", want2[:600], ans[:600])
+            want1 = C.run_go([f"sametype 1 {p}"])[0].split("1=")[-1]
+            if norm(before.split("1=")[-1]) != norm(want1):
+                ctx.violate("Encode of a struct value depends on what was encoded before in the same process", f"sametype 21 {p}", want1[:600],
+                            before.split("1=")[-1][:600])
 
     def run_holders(self, ctx):
         """Mapped application objects reachable only through a pointer-typed field of another application struct
@@ -1688,7 +1799,7 @@ class C19:
         for _ in range(ctx.scale(40, 600)):
             payloads.append("".join(chr(rng.choice([rng.randint(0x80, 0xff), rng.randint(0xc2, 0xf4), rng.randint(0x80, 0xbf), 0x41]))
                                     for _ in range(rng.randint(1, 6))).encode())
-        payloads += [b"p" * n for n in (4094, 4095, 4096, 4097, 8191, 8192, 8193, 9000, 12289, 20000)]   # text lines over 1, 2, 3+ bufio buffers
+        payloads += [b"p" * n for n in (4094, 4095, 4096, 4097, 8191, 8192, 8193, 9000, 12289, 20000, 65535, 65536, 65537, 70000)]   # text lines over 1, 2, 3+ bufio buffers, over 64 KiB
         payloads += [("\u20ac" * 3000).encode(), b"q" * 8190 + b"'\"\\\n" + b"r" * 5000]
         for _ in range(ctx.scale(250, 4000)):
             payloads.append(V.rand_bytes(rng, maxchunks=5))
@@ -1747,6 +1858,15 @@ class C19:
                 for nb, fb, kb in payload_forms(s2):
                     lines.append(f"dec {rng.choice(CFGS)} - {hexs(b'(' + fa + fb + b't.')}")
                     meta.append(("payload-pair", f"{na}/{nb}", (s1, s2)))
+        # a pickle longer than the reader's 4096-byte buffer made of one long payload and then many short ones in a one-byte-length
+        # form: wherever a short payload straddles the buffer boundary it is still delivered unchanged
+        for form in (P.SHORT_BINSTRING, P.SHORT_BINBYTES, P.SHORT_BINUNICODE):
+            for first in (P.BINSTRING(b"blob"), P.BINBYTES(b"0123456789" * 30), P.BINUNICODE(b"u" * 7)):
+                for shift in range(0, 12, 5):
+                    items = [b"item-%05d" % i for i in range(700)]
+                    prog = b"(" + first + P.SHORT_BINSTRING(b"s" * shift) + b"".join(form(x) for x in items) + b"t."
+                    lines.append(f"dec {rng.choice(CFGS)} - {hexs(prog)}")
+                    meta.append(("many-short", form.__name__, items))
         # one integer, two representations, one Dict entry
         for n in rng.sample(sorted(i for i in ints if -2 ** 200 < i < 2 ** 200), ctx.scale(150, 2000)):
             fs = int_forms(n)
@@ -1790,6 +1910,13 @@ class C19:
                 if not m or (m.group(1), m.group(2)) != (hexs(info[0]), hexs(info[1])):
                     ctx.violate(f"two payloads in one pickle ({name} forms) are not both delivered unchanged", line[:400],
                                 f"{hexs(info[0])[:80]} {hexs(info[1])[:80]}", g[:300])
+            elif kind == "many-short":
+                toks = g.split(" ")
+                got = [t[1:] for t in toks[4:-2]] if g.startswith("OK t( ") else None
+                if got != [hexs(x) for x in info]:
+                    bad = next((i for i, (a, b) in enumerate(zip(got or [], [hexs(x) for x in info])) if a != b), 0) if got else -1
+                    ctx.violate(f"a short payload ({name}) in a pickle longer than the read buffer is not delivered unchanged", line[:300],
+                                f"item {bad}: {hexs(info[bad]) if bad >= 0 else 'a tuple'}", (got[bad] if got and bad < len(got) else g[:200]))
             elif kind == "empty-after":
                 m = re.match(r"OK t\( \S+ (\S+) (\S+) \) \d+$", g)
                 if not m or m.group(1)[1:] != "-" or m.group(2)[1:] != "-":
